@@ -328,6 +328,31 @@ def single_pass_obligation(ctx, rule: str, fi, param: str, what: str) -> None:
                           f"on one path", stmt=f"{param} traversed more than once")
 
 
+TRANSPARENT_DECORATORS = {"staticmethod", "classmethod", "property", "abstractmethod",
+                          "abc.abstractmethod", "usedocs", "wraps", "functools.wraps",
+                          "overload", "typing.overload", "no_type_check", "in_model_method",
+                          "in_model_getter", "no_model_method", "no_model_setter"}
+
+
+def fresh_result_obligation(ctx, rule: str, fi, what: str) -> None:
+    """A function whose contract is stated for EVERY call and which returns mutable objects
+    must compute its result on every call: a memoising decorator (`functools.lru_cache`,
+    `functools.cache`, a home-made `memoize`) hands the first call's objects to every later
+    caller, so an edit of one result changes what the next call returns.  A decorator that
+    is not known to be transparent is an unproven obligation, not a violation."""
+    decs = fi.decorators()
+    memo = [d for d in decs if any(k in d.lower() for k in ("cache", "memo"))]
+    other = [d for d in decs if d not in memo and d.split(".")[-1] not in
+             {x.split(".")[-1] for x in TRANSPARENT_DECORATORS}]
+    ctx.ob(rule, fi, f"{what}: every call computes its own result (no memoising decorator; "
+                     f"the returned objects are mutable and belong to the caller)",
+           not memo, detail=f"decorators {decs}", stmt=f"{fi.qualname} memoised by {memo}")
+    if other and not memo:
+        ctx.ob(rule, fi, f"{what}: decorators are known to be transparent",
+               False, detail=f"unproven: unknown decorator(s) {other}",
+               stmt=f"{fi.qualname} decorated by {other}")
+
+
 def alternatives(t: Term, depth: int = 0) -> list[Term]:
     """The values a term can take, one per branch: joins at the top and in the direct
     arguments of a call are expanded (f(phi(c, a, b), x) has the alternatives f(a, x) and
